@@ -4,7 +4,8 @@
 From Utp Require Import Base.Prelude Wire.SeqNr Wire.Header Rtt.Rtte Rtt.Rtte_Proofs Mtu.SegSizes Rx.Rx Tx.Ring
   Tx.Segments Conn.Recovery Conn.Msg Conn.VSockRec Conn.VSock Conn.VSockRun Conn.VObs
   Conn.VSock_Lemmas Conn.VSock_LemmasTx Conn.VSock_LemmasStep Conn.VSock_LemmasTimers
-  Conn.C17_StepLemmas Conn.C05_Pred Conn.C06_Pred Conn.C0506_Pred2 Conn.C05_Pred3 Conn.C05_StepLemmas
+  Conn.VSock_LemmasPipe Conn.C17_StepLemmas Conn.C07_Proofs Conn.C05_Pred Conn.C06_Pred Conn.C0506_Pred2 Conn.C05_Pred3
+  Conn.C05_Proofs Conn.C05_StepLemmas Conn.C05_Segs Conn.C05_Walk Conn.C05_StepZw
   Conn.C10_Pred Conn.VSock_Inv Conn.C10_Proofs Conn.C05_Refuted.
 
 (* ------------------------------------------------------------------ lists *)
@@ -32,45 +33,7 @@ Proof.
   rewrite filter_rev'. reflexivity.
 Qed.
 
-(* ------------------------------------------------------------------ poll_loop from poll_start *)
-Lemma poll_body_start (s : vsock) : poll_body cci (poll_start s) = poll_body cci s.
-Proof. reflexivity. Qed.
-
-Lemma poll_loop_start : forall fuel (s s' : vsock),
-  poll_loop cci fuel s = (s', PollPending) -> poll_loop cci fuel (poll_start s) = (s', PollPending).
-Proof.
-  intros [|fuel] s s' H; cbn [poll_loop] in *; [discriminate|].
-  rewrite poll_body_start. destruct (poll_body cci s); [exact H|exact H|discriminate].
-Qed.
-
 (* ------------------------------------------------------------------ the relation KJ through a Pending poll *)
-Lemma poll_start_KJ (s : vsock) : KJ s (poll_start s).
-Proof.
-  intros now r0 e0 H0 (Ht & Hn & He) HJ. split.
-  - split; [apply (poll_start_ti s); exact Ht|]. split; [exact He|exact He].
-  - eapply J_QREL; [exact HJ|]. apply SQ_QREL. apply poll_start_SQ.
-Qed.
-
-Lemma send_tx_queue_KJ (s : vsock) : stRk KJ s (send_tx_queue cci s).
-Proof.
-  pose proof (send_tx_queue_ti cci s) as Ht. pose proof (send_tx_queue_frame cci s) as Hf.
-  destruct (send_tx_queue cci s) as [s' u|s' e|] eqn:E; cbn [stRk stR step_frame] in *; auto.
-  intros now r0 e0 H0 HB HJ. split; [eapply B_frame; eauto|].
-  pose proof (send_tx_queue_J cci now r0 e0 s HB H0 HJ) as H. rewrite E in H. exact H.
-Qed.
-
-Lemma maybe_send_fin_KJ (s : vsock) : stRk KJ s (maybe_send_fin s).
-Proof.
-  apply stk_KQ_KJ. intro now. apply stk_KQ; [apply maybe_send_fin_ti|apply maybe_send_fin_frame|].
-  apply maybe_send_fin_QREL.
-Qed.
-
-Lemma poll_tail_KJ (s : vsock) : KJ s (poll_tail s).
-Proof.
-  destruct (poll_tail_fields s) as (_ & _ & _ & _ & _ & _ & Hn & _ & _ & _ & _ & He & _).
-  apply SQ_KJ; [apply poll_tail_SQ|apply poll_tail_ti|exact Hn|exact He].
-Qed.
-
 Theorem poll_pending_KJ (s s' : vsock) :
   poll cci s = (s', PollPending) -> KJ (poll_start (poll_init s)) s'.
 Proof.
@@ -81,17 +44,15 @@ Proof.
     destruct H2 as [[_ H2]|(sa & sb & b & G1 & G2 & G3 & _ & _ & _ & ->)]; [exact H2|].
     eapply KJ_trans; [exact G1|]. eapply KJ_trans; [exact G3|]. apply poll_tail_KJ.
   - apply poll_start_KJ.
-  - intro s0. apply stk_SQ_KJ; [apply maybe_send_syn_ack_ti|apply step_frame_frame0, maybe_send_syn_ack_frame|
-      apply maybe_send_syn_ack_SQ].
-  - intro s0. apply stk_SQ_KJ; [apply send_ack_ti|apply step_frame_frame0, send_ack_frame|apply send_ack_SQ].
-  - intro s0. apply stk_KQ_KJ. intro now. apply process_all_KQ.
-  - intros s0 rx1 fb w _. apply SQ_KJ; [apply add_wakes_rx_SQ|apply rx_flush_ti|reflexivity|reflexivity].
-  - intro s0. apply stk_KQ_KJ. intro now. apply split_KQ.
+  - apply maybe_send_syn_ack_KJ.
+  - apply send_ack_KJ.
+  - apply process_all_KJ.
+  - intros s0 rx1 fb w _. apply rx_flush_KJ.
+  - apply split_KJ.
   - apply send_tx_queue_KJ.
-  - intro s0. pose proof (transition_to_fin_wait_1_frame s0) as (_ & E & N & _).
-    apply SQ_KJ; [apply transition_to_fin_wait_1_SQ|apply transition_to_fin_wait_1_ti|exact N|exact E].
+  - apply transition_to_fin_wait_1_KJ.
   - apply maybe_send_fin_KJ.
-  - intro s0. apply stk_SQ_KJ; [apply maybe_send_ack_ti|exact (maybe_send_ack_frame0 s0)|apply maybe_send_ack_SQ].
+  - apply maybe_send_ack_KJ.
 Qed.
 
 (* what a Pending poll leaves: the ghost invariant with the counter / timer of the state before *)
@@ -139,6 +100,63 @@ Proof.
   - intros s o Hp. apply c05_rto_single_ok_step; exact Hp.
   - intros s o Hp. apply ti_vstep; exact Hp.
   - eapply ti_vsock_new; exact H0.
+Qed.
+
+(* ================================================================== c05_zero_window_ok
+   for the polls that end with the connection still open (post_open): every queued message was processed
+   before anything was sent, so the window the ST_DATA went into is the one the poll leaves behind.
+   Invariants: ti, sp (every segment holds at least one byte), and the options are those of cfg. *)
+Definition optc (cfg : vconfig) (s : vsock) : Prop :=
+  o_wait_for_last_ack (v_opts s) = vc_wait_last_ack cfg.
+
+Lemma optc_vstep cfg (s : vsock) o : optc cfg s -> optc cfg (vstep_state cci s o).
+Proof. unfold optc. destruct (vstep_keeps cci s o) as (K & _). rewrite K. auto. Qed.
+
+Lemma optc_vsock_new mk c (s : vsock) : vsock_new cci mk c = Some s -> optc c s.
+Proof.
+  intro H. unfold vsock_new in H.
+  destruct (match (if vc_incoming c then None else _) with Some r => _ | None => _ end); [|discriminate].
+  inversion H; subst. reflexivity.
+Qed.
+
+Lemma phase_recovering_fp (s : vsock) :
+  phase_recovering (f_recovery (fp_of_vsock cci s)) = is_recovering (v_recovery s).
+Proof. cbn [fp_of_vsock f_recovery]. unfold is_recovering. destruct (rv_phase (v_recovery s)); reflexivity. Qed.
+
+Theorem c05_zero_window_ok_open_step : forall cfg (s : vsock) o,
+  ti s -> C05_Segs.sp s -> optc cfg s -> c05_zero_window_ok_open cfg (fstep_of cci s o) = true.
+Proof.
+  intros cfg s o Hti Hsp Hopt. unfold c05_zero_window_ok_open.
+  destruct (post_open cfg (fstep_of cci s o)) eqn:Hopen; [|reflexivity].
+  destruct o; try (unfold c05_zero_window_ok; rewrite fstep_of_event; reflexivity).
+  destruct (poll cci (VSockRec.set_sends s script)) as [s' r] eqn:E.
+  rewrite (fstep_of_poll cci s script s' r E) in *. unfold c05_zero_window_ok, post_open in *.
+  cbn [fs_event fs_result fs_pre fs_post fs_now] in *.
+  destruct r; try reflexivity.
+  destruct (poll_pending_zw cci s script s' Hti Hsp E) as (He & HJ & HW).
+  destruct (poll_pframe0 cci _ _ _ E) as (Po & _).
+  rewrite phase_recovering_fp. cbn [fp_of_vsock f_last_remote_window f_rto_retx f_state] in *.
+  destruct (Z.eqb_spec (v_last_remote_window s') 0) as [Hw|Hw]; [|reflexivity].
+  destruct (is_recovering (v_recovery s')) eqn:Hrec; [reflexivity|]. cbn [negb andb].
+  rewrite data_filter_out, map_length, rev_length.
+  assert (HZ : ZW s').
+  { destruct HW as [HW|HW]; [|exact HW]. unfold SC in HW. unfold optc in Hopt.
+    rewrite Po in HW. cbn [v_opts VSockRec.set_sends] in HW. rewrite Hopt in HW. rewrite HW in Hopen. discriminate. }
+  destruct (Z.eqb_spec (v_rto_retransmissions s') 0) as [Hr|Hr].
+  - destruct HZ as [HZ|[HZ|[HZ|HZ]]]; [rewrite HZ; reflexivity|lia| |contradiction].
+    unfold RECb in HZ. congruence.
+  - destruct HJ as [A1 A2 A3|A1 A2|p A1 A2 A3 A4 A5 A6]; [rewrite A1; reflexivity|contradiction|rewrite A1; reflexivity].
+Qed.
+
+Theorem c05_zero_window_ok_open_trace : forall mk c (s0 : vsock) ops,
+  vsock_new cci mk c = Some s0 -> forallb (c05_zero_window_ok_open c) (ftrace cci s0 ops) = true.
+Proof.
+  intros mk c s0 ops H0.
+  apply (ftrace_forallb_live cci (fun s => ti s /\ C05_Segs.sp s /\ optc c s)).
+  - intros s o (H1 & H2 & H3). apply c05_zero_window_ok_open_step; assumption.
+  - intros s o (H1 & H2 & H3) Hl. split; [apply ti_vstep; exact H1|].
+    split; [apply sp_vstep_live; assumption|apply optc_vstep; exact H3].
+  - split; [eapply ti_vsock_new; exact H0|]. split; [eapply sp_vsock_new; exact H0|eapply optc_vsock_new; exact H0].
 Qed.
 
 End WithCC.
